@@ -427,7 +427,7 @@ def subtler_fn(repo):
                     subs += 1
         return subs >= 2
 
-    return _one([f for f in repo.all_funcs() if ok(f)], "type-valued key function (several branches returning type[...])")
+    return _one(_lift(repo, [f for f in repo.all_funcs() if ok(f)]), "type-valued key function (several branches returning type[...])")
 
 
 @_memo
